@@ -43,14 +43,14 @@ def phases(seed):
             lo = first_partial if i == 0 else 0.0
             parts.append(lo + (np.arange(n) + 0.37) / n * (2 * np.pi - lo))
         return np.concatenate(parts)
-    out['regular'] = ramp([12] * 6)
-    noisy = ramp([10, 14, 9, 16, 11])
+    out['regular'] = ramp([24, 24, 12, 24, 24, 24])
+    noisy = ramp([20, 28, 18, 32, 22])
     noisy = noisy.copy()
     # one bad cycle: a phase reversal inside the third cycle
-    a = 10 + 14
+    a = 20 + 28
     noisy[a + 4], noisy[a + 5] = noisy[a + 5], noisy[a + 4]
     out['noisy'] = noisy
-    wl = ramp([9, 13, 8])
+    wl = ramp([18, 13, 16])
     out['wrap-last'] = np.r_[wl, 0.3]
     out['single'] = np.r_[ramp([7], first_partial=3.0), ramp([15])[:9]]
     out['no-wrap'] = np.linspace(0.1, 3.0, 17)
@@ -80,7 +80,7 @@ CONDS = [
     ['m1<=0.5', 'is_good==1'],
     ['m2>=-0.5'],
     ['m2<-0.25', 'm1>=1e-3'],
-    ['duration>10', 'duration<=40', 'is_good==1'],
+    ['duration>13', 'duration<=24'],
     ['m1>1e9'],
     ['is_good>=0'],
     ['m2!=-1', 'm1<2.5e1'],
